@@ -6,31 +6,47 @@ import time
 from concurrent.futures import ProcessPoolExecutor
 
 
+CONFIGS = {
+    'z3': {},
+    'z3-ematch': {'smt.mbqi': False, 'smt.auto_config': False},
+    'z3-nombqi': {'smt.mbqi': False},
+    'z3-seed7': {'smt.random_seed': 7, 'smt.mbqi': False, 'smt.auto_config': False},
+}
+
+
 def _z3_worker(args):
-    name, smt2, timeout_ms, want_model = args
+    """one obligation, one z3 configuration. `sat` is only accepted from the default configuration (the E-matching-only
+    configurations cannot establish satisfiability of quantified formulas)"""
+    name, smt2, timeout_ms, want_model, label = args
     import z3
     t0 = time.time()
     try:
         s = z3.Solver()
-        s.set('timeout', timeout_ms)
+        s.set('timeout', int(timeout_ms))
+        for k, v in CONFIGS[label].items():
+            s.set(k, v)
         s.from_string(smt2)
         r = s.check()
-        model = None
-        if r == z3.sat and want_model:
-            try:
-                m = s.model()
-                model = {}
-                for d in m.decls():
-                    if d.arity() == 0:
-                        try:
-                            model[str(d)] = to_py(m, d())
-                        except Exception:
-                            model[str(d)] = str(m[d])
-            except Exception as e:  # noqa
-                model = {'_error': repr(e)}
-        return name, str(r), model, int((time.time() - t0) * 1000), 'z3'
+        if r == z3.unsat:
+            return name, 'unsat', None, int((time.time() - t0) * 1000), label
+        if r == z3.sat and label == 'z3':
+            model = None
+            if want_model:
+                try:
+                    m = s.model()
+                    model = {}
+                    for d in m.decls():
+                        if d.arity() == 0:
+                            try:
+                                model[str(d)] = to_py(m, d())
+                            except Exception:
+                                model[str(d)] = str(m[d])
+                except Exception as e:  # noqa
+                    model = {'_error': repr(e)}
+            return name, 'sat', model, int((time.time() - t0) * 1000), label
+        return name, 'unknown', None, int((time.time() - t0) * 1000), label
     except Exception as e:  # solver crash is "unknown", never a verdict
-        return name, 'unknown', {'_error': repr(e)}, int((time.time() - t0) * 1000), 'z3'
+        return name, 'unknown', {'_error': repr(e)}, int((time.time() - t0) * 1000), label
 
 
 def to_py(m, term, depth=0):
@@ -93,20 +109,34 @@ def _cvc5_worker(args):
     return name, out, None, int((time.time() - t0) * 1000), 'cvc5'
 
 
-def discharge(obls, timeout_ms=10000, workers=None, use_cvc5=True, cvc5_timeout_ms=None):
+def discharge(obls, timeout_ms=10000, workers=None, use_cvc5=True, cvc5_timeout_ms=None, portfolio=True):
     """obls: list of Obligation -> dict name -> dict(verdict, backend, ms, model)
-    verdict: proved (unsat) / refuted (sat) / unknown"""
+    verdict: proved (unsat) / refuted (sat) / unknown.
+    phase 1: default z3 with a short budget; phase 2 (unknowns): every z3 configuration in parallel with the full budget,
+    first unsat wins; phase 3 (still unknown): cvc5."""
     workers = workers or min(16, os.cpu_count() or 4)
-    jobs = [(o.name, o.smt2(), timeout_ms, True) for o in obls]
+    texts = {o.name: o.smt2() for o in obls}
     res = {}
+    first = max(1000, min(timeout_ms, 4000)) if portfolio else timeout_ms
     with ProcessPoolExecutor(max_workers=workers) as ex:
+        jobs = [(n, t, first, True, 'z3') for n, t in texts.items()]
         for name, r, model, ms, be in ex.map(_z3_worker, jobs, chunksize=1):
             res[name] = dict(raw=r, model=model, ms=ms, backend=be)
+        unk = [n for n in texts if res[n]['raw'] == 'unknown']
+        if unk and portfolio:
+            jobs = [(n, texts[n], timeout_ms, True, label) for n in unk for label in CONFIGS]
+            for name, r, model, ms, be in ex.map(_z3_worker, jobs, chunksize=1):
+                cur = res[name]
+                if r != 'unknown' and (cur['raw'] == 'unknown' or ms < cur.get('won_ms', 1 << 60)):
+                    res[name] = dict(raw=r, model=model, ms=ms, backend=be, won_ms=ms,
+                                     configs=dict(cur.get('configs', {}), **{be: ms}))
+                elif r != 'unknown':
+                    cur.setdefault('configs', {})[be] = ms
         if use_cvc5:
-            unk = [j for j in jobs if res[j[0]]['raw'] == 'unknown']
+            unk = [n for n in texts if res[n]['raw'] == 'unknown']
             if unk:
-                unk = [(n, s, cvc5_timeout_ms or timeout_ms, False) for n, s, _, _ in unk]
-                for name, r, model, ms, be in ex.map(_cvc5_worker, unk, chunksize=1):
+                jobs = [(n, texts[n], cvc5_timeout_ms or timeout_ms, False) for n in unk]
+                for name, r, model, ms, be in ex.map(_cvc5_worker, jobs, chunksize=1):
                     if r != 'unknown':
                         res[name] = dict(raw=r, model=res[name]['model'], ms=res[name]['ms'] + ms, backend=be)
                     else:
